@@ -142,10 +142,10 @@ static inline C01Stats exec_c01(const Case &c) {
         br_automata_destroy(lm);
         br_automata_destroy(ls);
         br_darwin_destroy(&d);
-        br_reset_iface_states();
+        w.teardown_core();   // topology Reset on every interface (must release all retained state), then the records themselves
         if (s.fail.empty() && vp_ledger_violations()) s.fail = vp_ledger_last_violation();
-        if (s.fail.empty() && vp_live_blocks() != 0)
-            s.fail = fmt("%zu block(s) / %zu bytes still allocated after every object was destroyed", vp_live_blocks(), vp_live_bytes());
+        if (s.fail.empty() && vp_live_blocks() != w.leftover_records())
+            s.fail = fmt("%zu block(s) / %zu bytes still allocated after a Reset on every interface and the destruction of every object", vp_live_blocks() - w.leftover_records(), vp_live_bytes());
     }
     return s;
 }
